@@ -29,6 +29,7 @@ def check(ctx):
     ctx.rule("T1-contain", "parseMessage / serviceReqs / serviceResponse contain HTTPException per connection")
     repo = ctx.repo
     scope = _http.parse_scope(ctx)
+    unbound_locals(ctx, scope)
     nr = 0
     for q, f in scope.items():
         if "/aio/http/" not in q:
@@ -167,3 +168,31 @@ def check(ctx):
     rt = S2.tests(lambda t: "self.respondent.redirectant" in src(t) and "not" not in src(t))
     ctx.check(bool(rc) and bool(rt) and S2.dominated_by_edge(rc, rt[0], "T"), "D7-nullable", sr2,
               "Patron.serviceResponse calls redirect() only under respondent.redirectant", "")
+
+
+REVIEWED_UNBOUND = {
+    ("parseLine", "eol"): "eol is bound in the same loop iteration in which index becomes >= 0; it is read only under index >= 0",
+    ("parseLeader", "eol"): "same search loop as parseLine",
+}
+
+
+def unbound_locals(ctx, scope):
+    """D1c over the HTTP parse call graph: a local read on a path on which nothing bound it raises UnboundLocalError - not an
+    HTTPException - out of parseMessage and the service loops (e.g. a header continuation line that uses the previous line's
+    key when it is the first line of the block)"""
+    from ..rules import possibly_unbound
+    ctx.rule("D1c", "no local of the HTTP parsers is read on a path without a completed binding (reviewed exceptions listed)")
+    n = 0
+    for q, f in sorted(scope.items()):
+        if "/aio/http/" not in q:
+            continue
+        V = FuncView(ctx, f, exc="calls")
+        for u, name in possibly_unbound(V):
+            if (f.name, name) in REVIEWED_UNBOUND:
+                continue
+            n += 1
+            ctx.bad("D1c", u.ast, "%s reads `%s` in %s" % (q.split(":")[1], name, src(u.ast)[:50]),
+                    "on some path to this statement `%s` has not been bound: UnboundLocalError escapes the parser, the exception is not an "
+                    "HTTPException, so it leaves parseMessage and serviceAll and stops the other connections from being served" % name)
+    if not n:
+        ctx.ok("D1c", "ioflo/aio/http", "%d functions: every read local is bound on every path" % len(scope))
